@@ -92,6 +92,13 @@ def run(ctx):
         if key in seen_f:
             continue
         seen_f.add(key)
+        if none_r is True and none_d is None and r.truth(pd) is not None:
+            # the fallback is chosen on the truthiness of the configured default: a falsy policy (retries=False, retries=0 on the pool
+            # or the manager) is then replaced by the class default and redirects are followed against the configuration
+            okn = r.truth(pd) is True and (r.ret == pd or pd in r.ret)
+            ctx.ob(R1, fint.qual, f"from_int: the configured default is used whenever it is not None (decided on truthiness={r.truth(pd)}, returns {r.ret[:40]})", okn,
+                   "" if okn else "`default or DEFAULT`: a falsy configured policy (False, 0) is ignored in favour of Retry.DEFAULT (3 redirects followed)", witness=r.witness(), node=fint.node)
+            continue
         if none_r is True and none_d is False:
             want_src = pd
         elif none_r is True:
